@@ -4,6 +4,8 @@ import (
 	"encoding/hex"
 	"encoding/json"
 	"fmt"
+	"github.com/wi1dcard/fingerproxy/pkg/http2"
+	"github.com/wi1dcard/fingerproxy/pkg/proxyserver"
 	"github.com/wi1dcard/fingerproxy/pkg/reverseproxy"
 	"math/rand"
 	"net/http"
@@ -351,6 +353,16 @@ func runStack(out string, _ string) {
 		panic(err)
 	}
 	defer st2.Close()
+	// every third case: an application that brings its own http.Server and http2.Server ("set to your http.Server if you want to
+	// customize", says the field's comment) after NewServer, the way it sets every other exported field
+	st3, err := stack.Start(stack.Options{MutateServer: func(srv *proxyserver.Server) {
+		srv.HTTPServer = &http.Server{Handler: srv.HTTPServer.Handler, ErrorLog: srv.HTTPServer.ErrorLog, MaxHeaderBytes: 1 << 19}
+		srv.HTTP2Server = &http2.Server{MaxConcurrentStreams: 100}
+	}})
+	if err != nil {
+		panic(err)
+	}
+	defer st3.Close()
 	cases := buildCases(rng, tier)
 	res := make([]CaseObs, len(cases))
 	var wg sync.WaitGroup
@@ -361,7 +373,9 @@ func runStack(out string, _ string) {
 		go func(i int) {
 			defer wg.Done()
 			defer func() { <-sem }()
-			if i%2 == 1 {
+			if i%3 == 2 {
+				res[i] = runCase(st3, cases[i], i)
+			} else if i%2 == 1 {
 				res[i] = runCase(st2, cases[i], i)
 			} else {
 				res[i] = runCase(st, cases[i], i)
